@@ -10,7 +10,7 @@ from cvxopt import matrix, spmatrix, sparse, solvers, misc
 TRANSFORMS_LP = ["sparse", "kkt", "wrapper", "operator", "start", "recone_q", "recone_s", "permrows", "permvars",
                  "scale", "glpk", "dsdp"]
 TRANSFORMS_QP = ["sparse", "kkt", "wrapper", "operator", "start", "recone_q", "recone_s", "permrows", "permvars", "scale"]
-KNOWN = {"chol2-limit-singular": False}
+KNOWN = {"chol2-limit-singular": False, "coneqp-gap-cycling": False}
 
 
 @st.composite
@@ -280,6 +280,14 @@ def oracle(case, stats=None):
             if stats is not None:
                 stats.exclude("chol2-limit-singular")
             return
+    if eff0 != eff1 and qp and KNOWN.get("coneqp-gap-cycling") and "unknown" in (eff0, eff1):
+        # known finding: coneqp cycles (feasible iterates, oscillating gap) until the iteration limit
+        from vlib import known
+        badsol = sol1 if eff1 == "unknown" else sol0
+        if known.coneqp_gap_cycling(badsol):
+            if stats is not None:
+                stats.exclude("coneqp-gap-cycling")
+            return
     if eff0 != eff1:
         raise Violation("status %r (base: conelp/coneqp, dense, default KKT solver) vs %r under presentation %r "
                         "(dims=%r, kind=%s)" % (s0, s1, name, dims, kind))
@@ -489,12 +497,13 @@ def pattern_oracle(case, stats=None):
         return
     pref = ref["primal objective"]
     for gname, fG in (("dense", dn), ("sparse", sp_)):
+      for pname, fP in ((("dense", dn), ("sparse", sp_)) if case["qp"] else (("-", dn),)):
         for aname, fA in (("dense", dn), ("sparse", sp_)):
             for kkt in (None, "chol2", "ldl"):
                 what = "%s with G %s, A %s%s, kktsolver=%r (n=%d, %d rows, p=%d)" % ("qp" if case["qp"] else "lp", gname, aname,
-                                                                             ", P " + gname if case["qp"] else "", kkt, n, m, p)
+                                                                             ", P " + pname if case["qp"] else "", kkt, n, m, p)
                 try:
-                    sol = solve(fG, fA, fG, kkt)
+                    sol = solve(fG, fA, fP, kkt)
                 except Exception as e:   # noqa
                     raise Violation("%s raised %s: %s although the all-dense 'ldl' presentation is optimal" % (what, type(e).__name__, e))
                 if sol["status"] == "unknown" and all(isinstance(sol.get(k_), float) for k_ in ("primal infeasibility", "dual infeasibility", "gap")) \
